@@ -929,14 +929,18 @@ func main() {
 		"flip_alphabet":         "xor 0x01, xor 0x80 at every enumerated offset",
 		"formats":               len(builders),
 		"multi_signature_files": "macho-fat 2 and 3 slices, pe 2 entries, jar 2 signers; subsets of positions: all non-empty; disguises: 7; see multi_signature_files",
+		"repeat_marker":         "ps: 3 comment styles x 2 encodings x every line boundary x 3 markers x 3 shapes; pgp-clearsign: every line boundary x 7 markers x 3 shapes (counts per artifact in semantic_mutations)",
+		"rebind_namespace":      "appmanifest, vsix signature part: every element x visibly used prefixes x every other namespace URI declared in the document (+ un-declaration of the default namespace); counts in the artifacts' notes",
 	})
-	run.Rule("a case is one mutated file verified by relic; non-trivial = the mutation hits a byte the independent reader classes as protected (flips), or is an asserted semantic mutation; keyed by artifact, offset and mask / mutation class and site; command line: for one artifact per format that needs no side file, the real `relic verify` binary on every sequence of <=3 files over {good copy, tampered copy (first covered byte, one bit)}: exit status non-zero exactly when a tampered file is present, every good file reported OK; XML signature wrapping (vsix): one referenced part modified + an unsigned look-alike of one link of the chain SignedInfo -> SignedInfo/Reference -> Object(by Id) -> Manifest -> Manifest/Reference, re-pointed at the modified part: Manifest/Reference {before, after, first, last in Manifest}, Manifest {before, after}, Object {every gap between Signature's children} x Id {same, absent, other} and wrapped around the signed Object {Id absent, other} x {signed first, last}, for every referenced part; SignedInfo/Reference {before, after} x every subset of its children and SignedInfo {every gap between Signature's children} x every subset of its children x every subset of its Reference's children, each x Object' {replaced in place, shadow before, shadow after}, for the first referenced payload part; all asserted (SignedInfo and SignatureValue are never touched, the part differs from what was signed); duplicate content: a generated xar with 3 groups of members whose archived bytes are identical at separate heap extents (stored / zlib, adjacent / not, same / other checksum style), the handmade jar with a second copy of a stored and of a deflated member, the VSIX fixture with a second copy of two parts - every byte of every copy flipped; unsigned alternative (macho, dmg): one code byte changed {middle, last hashed byte} + an extra CodeDirectory written by the harness that describes the changed code and that no signed attribute names: hash type {1 SHA-1, 2 SHA-256, 3 SHA-256 truncated, 4 SHA-384, 5 SHA-512} x shape {all pages + special slots re-hashed, all pages without special slots, code limit cut to the first page} x placement {alternate slot 0x1000, 0x1005 (thorough: all six), second index entry of type 0 before / after the genuine one, slot 0 with the genuine directory moved to 0x1000}, SuperBlob re-laid, LC_CODE_SIGNATURE/__LINKEDIT sizes (koly signature length) fixed up before hashing when it outgrows its slot, page hashes re-checked by the harness's reader - all asserted rejected; unprotected parts (pe, msi, cab, cat, ps1, jar, xap, appx, macho, dmg, xar): the artifact signed by relic's pipeline with key rsaA under the expired (2020..2021) and under the not-yet-valid (2044..2046) fixture certificate must be rejected as signed, and for each: authority {self-signed TSA, own root + TSA leaf, TSA leaf naming the trusted intermediate as issuer (own key), trusted fixture TSA} x form {RFC 3161 token as id-aa-timeStampToken, as 1.3.6.1.4.1.311.3.3.1, counterSignature attribute with the authority's certificates added to the bag} x attested time {notBefore+1s, middle, notAfter-1s, notBefore-1s, notAfter+1s, now} grafted into the unsigned attributes (nothing signed is touched), plus the 6 ordered pairs of forms {trusted TSA attesting now, self-signed TSA attesting the middle}: asserted rejected except trusted TSA at the three inside times, which is the control (tallied; accepted on the unchanged tree = the grafts are well-formed); files with several signatures (the real `relic verify --cert root` binary, one process per case, and the in-process mirror): universal Mach-O written by the harness from slices signed by relic {x86_64+arm64, arm64+x86_64, x86_64+arm64+i386 (thorough: every order of every 2 or 3 of the three slices)}, PE with a two-entry certificate table {SHA-1, SHA-256 signature of the same image}, JAR with two signers {aliases FIRST, SECOND; two different trusted certificates} x every non-empty subset of the signature positions x disguise of the certificate under which a key OUTSIDE the trusted chain re-signs those positions (for Mach-O: a slice with one code byte changed; for PE / JAR: the signature entry alone, the content is common) {nothing copied, subject, issuer+serial (the CMS SignerIdentifier), subject+issuer+serial, subject key identifier, every field but the key, every field but the key for leaf, intermediate and root} x which genuine signer of the file is copied: asserted exit status non-zero, fewer OK lines than signatures, no OK line naming a re-signed slice, in-process verdict not accepted; control per subset: the same positions re-signed by another TRUSTED key (tallied; verifies on the unchanged tree = the files are well-formed and it is the signer that is refused; the reason the command gives is tallied per disguise); plus the thin image re-signed the same ways as one file among several: sequences [re-signed], [genuine, re-signed], [re-signed, genuine]")
+	run.Rule("a case is one mutated file verified by relic; non-trivial = the mutation hits a byte the independent reader classes as protected (flips), or is an asserted semantic mutation; keyed by artifact, offset and mask / mutation class and site; command line: for one artifact per format that needs no side file, the real `relic verify` binary on every sequence of <=3 files over {good copy, tampered copy (first covered byte, one bit)}: exit status non-zero exactly when a tampered file is present, every good file reported OK; XML signature wrapping (vsix): one referenced part modified + an unsigned look-alike of one link of the chain SignedInfo -> SignedInfo/Reference -> Object(by Id) -> Manifest -> Manifest/Reference, re-pointed at the modified part: Manifest/Reference {before, after, first, last in Manifest}, Manifest {before, after}, Object {every gap between Signature's children} x Id {same, absent, other} and wrapped around the signed Object {Id absent, other} x {signed first, last}, for every referenced part; SignedInfo/Reference {before, after} x every subset of its children and SignedInfo {every gap between Signature's children} x every subset of its children x every subset of its Reference's children, each x Object' {replaced in place, shadow before, shadow after}, for the first referenced payload part; all asserted (SignedInfo and SignatureValue are never touched, the part differs from what was signed); duplicate content: a generated xar with 3 groups of members whose archived bytes are identical at separate heap extents (stored / zlib, adjacent / not, same / other checksum style), the handmade jar with a second copy of a stored and of a deflated member, the VSIX fixture with a second copy of two parts - every byte of every copy flipped; unsigned alternative (macho, dmg): one code byte changed {middle, last hashed byte} + an extra CodeDirectory written by the harness that describes the changed code and that no signed attribute names: hash type {1 SHA-1, 2 SHA-256, 3 SHA-256 truncated, 4 SHA-384, 5 SHA-512} x shape {all pages + special slots re-hashed, all pages without special slots, code limit cut to the first page} x placement {alternate slot 0x1000, 0x1005 (thorough: all six), second index entry of type 0 before / after the genuine one, slot 0 with the genuine directory moved to 0x1000}, SuperBlob re-laid, LC_CODE_SIGNATURE/__LINKEDIT sizes (koly signature length) fixed up before hashing when it outgrows its slot, page hashes re-checked by the harness's reader - all asserted rejected; unprotected parts (pe, msi, cab, cat, ps1, jar, xap, appx, macho, dmg, xar): the artifact signed by relic's pipeline with key rsaA under the expired (2020..2021) and under the not-yet-valid (2044..2046) fixture certificate must be rejected as signed, and for each: authority {self-signed TSA, own root + TSA leaf, TSA leaf naming the trusted intermediate as issuer (own key), trusted fixture TSA} x form {RFC 3161 token as id-aa-timeStampToken, as 1.3.6.1.4.1.311.3.3.1, counterSignature attribute with the authority's certificates added to the bag} x attested time {notBefore+1s, middle, notAfter-1s, notBefore-1s, notAfter+1s, now} grafted into the unsigned attributes (nothing signed is touched), plus the 6 ordered pairs of forms {trusted TSA attesting now, self-signed TSA attesting the middle}: asserted rejected except trusted TSA at the three inside times, which is the control (tallied; accepted on the unchanged tree = the grafts are well-formed); files with several signatures (the real `relic verify --cert root` binary, one process per case, and the in-process mirror): universal Mach-O written by the harness from slices signed by relic {x86_64+arm64, arm64+x86_64, x86_64+arm64+i386 (thorough: every order of every 2 or 3 of the three slices)}, PE with a two-entry certificate table {SHA-1, SHA-256 signature of the same image}, JAR with two signers {aliases FIRST, SECOND; two different trusted certificates} x every non-empty subset of the signature positions x disguise of the certificate under which a key OUTSIDE the trusted chain re-signs those positions (for Mach-O: a slice with one code byte changed; for PE / JAR: the signature entry alone, the content is common) {nothing copied, subject, issuer+serial (the CMS SignerIdentifier), subject+issuer+serial, subject key identifier, every field but the key, every field but the key for leaf, intermediate and root} x which genuine signer of the file is copied: asserted exit status non-zero, fewer OK lines than signatures, no OK line naming a re-signed slice, in-process verdict not accepted; control per subset: the same positions re-signed by another TRUSTED key (tallied; verifies on the unchanged tree = the files are well-formed and it is the signer that is refused; the reason the command gives is tallied per disguise); plus the thin image re-signed the same ways as one file among several: sequences [re-signed], [genuine, re-signed], [re-signed, genuine]; structural markers of a text signature format repeated (class repeat-marker): PowerShell-style scripts in each comment style {# .ps1, <!-- --> .ps1xml, /* */ .mof} x encoding {UTF-8, UTF-16-LE with byte order mark (artifacts ps/<fixture>.utf16, also byte-flipped)}: at EVERY line boundary of the signed file (start, inside the script text, between text and block, between any two lines of the block, end of file) insert marker {Begin line, End line, copy of the whole genuine block} x shape {alone, marker + one line of executable text, one line of executable text + marker} - asserted rejected whenever a line of executable text was added (wherever) or a marker line landed inside the text in front of the genuine block, tallied when only comment lines were added at the start of / inside / behind the block; OpenPGP cleartext signature: at every line boundary insert marker {BEGIN PGP SIGNED MESSAGE, BEGIN PGP SIGNATURE, END PGP SIGNATURE, each dash-escaped, copy of the genuine armor block} x the same three shapes - asserted rejected inside the signed text and, in front of the armor, when the first inserted line is not a BEGIN PGP SIGNATURE line, tallied in the header region / inside / behind the armor; namespace re-binding in signed XML (class rebind-namespace; ClickOnce manifest, VSIX signature part): for every element x every prefix it makes visible use of (own prefix or default namespace, prefixes of its attributes) x every namespace URI declared anywhere in the document other than the one bound there (plus xmlns=\"\" for an element in a default namespace): the declaration added to, or replaced on, the element's start tag - the harness's own namespace resolution says the expanded name changed; asserted rejected for elements the harness's map classes as covered by a signature (document content, SignedInfo, license, Object), tallied for the Signature / KeyInfo / SignatureValue wrappers")
 	run.Assume("fixture keys and chain root->inter->leaf; trust pool holds only the fixture root; PGP keyring holds rsaA and rsaB")
 	run.Assume("the digest an attacker would write into an unsigned look-alike SignedInfo is computed by a harness-owned canonicaliser (no prefixed names) that must reproduce the digest the signer wrote for the package Object of the same artifact, else those look-alikes are listed as not constructible")
 	run.Assume("files with several signatures: the genuine signer of the Mach-O slices, both PE entries and the first JAR alias is key rsaA under a certificate issued at run time by the fixture intermediate (inter.key) that carries a subject key identifier (the committed leaf certificates have none, so that disguise would be empty); the outside key is tp2k.key, its authority key otherroot.key; every look-alike is checked not to chain to the fixture root with the standard library before use. Not enumerated: APK (v1 + v2 signatures in one file), IPA / app bundles (a universal executable inside a ZIP), time-stamped signatures in such files")
 	run.Assume("xar members sharing ONE heap extent (coalesced heap) are not enumerated: relic's signer refuses such a package (streaming heap reader)")
 	run.Assume("out-of-validity enumeration: today's date lies outside 2020-01-01..2021-01-01 and 2044-01-01..2046-01-01 (checked at run time); the MSI artifact is signed with a certificate file that carries six unrelated certificates behind the chain, and a graft drops as many of those as it needs to fit the allocated signature stream (the compound file is not re-laid)")
 	run.Assume("classification of bytes is derived from the format specifications by harness-owned readers; bytes not clearly covered are left unclassified and only tallied")
+	run.Assume("repeated markers: the line of executable text is `Remove-Item *` (.ps1), `<Evil />` (.ps1xml), `instance of Evil { };` (.mof), `Inserted: line` (cleartext); markers are inserted as whole lines with the line end the signer writes (CRLF in scripts, LF in the cleartext file); markers in the middle of a line and JAR manifest section names repeated are not enumerated here")
+	run.Assume("namespace re-binding: only prefixes an element makes visible use of are re-bound (a prefix used only inside attribute values or character data is invisible to exclusive canonicalisation by design); URIs are those declared in the document itself")
 	for _, a := range arts {
 		if a.Windows != nil {
 			run.Assume(a.ID() + ": byte flips restricted to " + a.WindowNote)
